@@ -346,3 +346,25 @@ Print Assumptions C16_print_ast_verbose.
 Print Assumptions C16_print_ast_lang.
 Print Assumptions C16_pipeline_printable.
 Print Assumptions C16_pipeline_printable_nogap.
+
+(* NON-VACUITY (Proofs/NonVacuity.v, world W2m): the sandwich on the input where widening
+   happens: the specification language of ["ba","bb"] lies within the language of the final
+   expression b{1,2}a?, which lies within the language of the trie. *)
+From Grex Require Proofs.NonVacuity.
+Theorem C16_nonvacuous : exists e s t,
+  NonVacuity.world_ok NonVacuity.c_W2m NonVacuity.db_W2m SCPass1 NonVacuity.ws_W2m false e s
+  /\ trie_of (grapheme_clusters NonVacuity.c_W2m NonVacuity.db_W2m (normalise NonVacuity.c_W2m NonVacuity.db_W2m NonVacuity.ws_W2m)) = Some t
+  /\ (forall (lit cls : cp -> cp -> Prop) u, Spec lit cls NonVacuity.c_W2m NonVacuity.db_W2m NonVacuity.ws_W2m u -> L_expr lit cls e u)
+  /\ (forall (lit cls : cp -> cp -> Prop) u, L_expr lit cls e u -> L_dfa lit cls t u).
+Proof.
+  pose proof NonVacuity.W2m as W.
+  destruct (trie_of (grapheme_clusters NonVacuity.c_W2m NonVacuity.db_W2m (normalise NonVacuity.c_W2m NonVacuity.db_W2m NonVacuity.ws_W2m))) as [t|] eqn:Et;
+    [|vm_compute in Et; discriminate].
+  do 2 eexists. exists t. split; [exact W|]. split; [reflexivity|].
+  split; intros lit cls u H.
+  - exact (proj1 (C16_final_sandwich lit cls _ _ _ _ _ t (NonVacuity.w_nonempty _ _ _ _ _ _ _ W)
+             (NonVacuity.w_oracle _ _ _ _ _ _ _ W) Et (NonVacuity.w_expr _ _ _ _ _ _ _ W)) u H (or_intror NonVacuity.W2m_K4)).
+  - exact (proj2 (C16_final_sandwich lit cls _ _ _ _ _ t (NonVacuity.w_nonempty _ _ _ _ _ _ _ W)
+             (NonVacuity.w_oracle _ _ _ _ _ _ _ W) Et (NonVacuity.w_expr _ _ _ _ _ _ _ W)) u H).
+Qed.
+Print Assumptions C16_nonvacuous.
